@@ -163,7 +163,7 @@ func (fr *Frame) callStatic(fn *ssa.Function, args []Val, bindings []Val, pos to
 	isAnon := fn.Parent() != nil
 	if (inGeo || isAnon) && len(fn.Blocks) > 0 && !c.onStack(fn) && fr.depth < c.eng.maxDepth && c.budget > 0 {
 		ct := c.eng.contractOf(fn)
-		res, st, ret := c.runFunc(fn, args, bindings, fr.cur, fr.curReach, fr, frameOpts{prefix: shortName(fn), contract: ct})
+		res, st, ret := c.runFunc(fn, args, bindings, fr.cur, fr.abs(), fr, frameOpts{prefix: shortName(fn), contract: ct})
 		fr.cur = st
 		// a callee that does not return on some paths (panics) restricts reachability afterwards; the panic itself was an obligation
 		if !fr.spec {
@@ -293,11 +293,11 @@ func (fr *Frame) useContract(fn *ssa.Function, ct *Contract, args []Val, pos tok
 			}
 		case "ensures":
 			if !fr.inQuant {
-				c.assume(Implies(fr.curReach, cond))
+				c.assume(Implies(fr.abs(), cond))
 			}
 		}
 	}}
-	_, post, _ := c.runFuncSpec(gen, full, st, fr.curReach, fr, mk, sub)
+	_, post, _ := c.runFuncSpec(gen, full, st, fr.abs(), fr, mk, sub)
 	fr.cur = post
 	return tupleOrSingle(mk.results, resType)
 }
@@ -332,9 +332,10 @@ func (fr *Frame) markerCall(fn *ssa.Function, args []Val, pos token.Pos, resType
 	mk.pre = fr.cur.clone()
 	switch mk.mode {
 	case "verify":
-		res, st, ret := c.runFunc(fn, args, nil, fr.cur, fr.curReach, fr, frameOpts{real: true, contract: mk.contract})
+		res, st, ret := c.runFunc(fn, args, nil, fr.cur, fr.abs(), fr, frameOpts{real: true, contract: mk.contract})
 		fr.cur = st
 		fr.curReach = And(fr.curReach, ret)
+		fr.baseReach = And(fr.baseReach, ret)
 		mk.results = res
 		if mk.contract.Flags["noframe"] == "" {
 			c.frameCheck(fr, mk, args, pos)
@@ -391,7 +392,7 @@ func (fr *Frame) applyModifies(mk *markerInfo, args []Val) {
 	for i := len(args); i < len(gen.Params); i++ {
 		full = append(full, Val{T: FreshVar("ghost", sortOf(gen.Params[i].Type()))})
 	}
-	targets := c.modTargets(gen, full, fr.cur, fr.curReach, fr)
+	targets := c.modTargets(gen, full, fr.cur, fr.abs(), fr)
 	for _, t := range targets {
 		fr.havocTarget(t)
 	}
@@ -565,7 +566,7 @@ func (fr *Frame) specHelper(name string, fn *ssa.Function, args []Val, pos token
 	}
 	clause := func(kind string, cond *Term, label string) {
 		if c.curSpec != nil && c.curSpec.onClause != nil {
-			c.curSpec.onClause(kind, Implies(fr.curReach, cond), label, pos)
+			c.curSpec.onClause(kind, Implies(fr.baseReach, cond), label, pos)
 		}
 	}
 	switch base {
@@ -594,13 +595,19 @@ func (fr *Frame) specHelper(name string, fn *ssa.Function, args []Val, pos token
 			unsupported("quantifier over dynamic function")
 		}
 		pt := clo.Fn.Params[0].Type()
-		q := BoundVar(clo.Fn.Params[0].Name(), sortOf(pt))
+		q := c.eng.boundFor(clo.Fn.Params[0], sortOf(pt))
 		res, _, _ := c.runFunc(clo.Fn, []Val{{T: q}}, clo.Bindings, fr.cur.clone(), TTrue, fr, frameOpts{spec: true, inQuant: true})
 		body := res[0].T
 		if base == "vcForall" {
 			return Val{T: Forall([]*Term{q}, body)}, true
 		}
 		return Val{T: Exists([]*Term{q}, body)}, true
+	case "vcSame":
+		a, b := args[0].term(), args[1].term()
+		if a == nil || b == nil {
+			unsupported("vcSame on non-term values")
+		}
+		return Val{T: Eq(a, b)}, true
 	case "vcArr":
 		return Val{T: DataField_(args[0].T, 0)}, true
 	case "vcOff":
@@ -745,7 +752,7 @@ func (fr *Frame) appendOp(cc *ssa.CallCommon, args []Val, pos token.Pos) Val {
 	narr := c.freshRef(fr, et, "append")
 	ncap := FreshVar("append_cap", SInt)
 	c.assume(And(BVCmp("bvsge", ncap, newLen), BVCmp("bvsle", ncap, BVLit(maxLen, 64))))
-	c.assume(Implies(fr.curReach, BVCmp("bvsle", newLen, BVLit(maxLen, 64))))
+	c.assume(Implies(fr.abs(), BVCmp("bvsle", newLen, BVLit(maxLen, 64))))
 	srcInner := Select(heap, DataField_(s, 0))
 	addInner := Select(fr.cur.get(elemKey(et), heapSort), DataField_(add, 0))
 	if isString(cc.Args[1].Type()) {
